@@ -161,6 +161,25 @@ func simplifierFns(name string, mk func() orb.Simplifier) genFn {
 		}}
 }
 
+// shorterView: the value without its last vertex, sharing its array (slice kinds of two or more vertices).
+func shorterView(g orb.Geometry) (orb.Geometry, bool) {
+	switch a := g.(type) {
+	case orb.MultiPoint:
+		if len(a) >= 2 {
+			return a[:len(a)-1], true
+		}
+	case orb.LineString:
+		if len(a) >= 2 {
+			return a[:len(a)-1], true
+		}
+	case orb.Ring:
+		if len(a) >= 2 {
+			return a[:len(a)-1], true
+		}
+	}
+	return nil, false
+}
+
 // clipFn is the generic clip against a box with its kind-specific counterparts.
 func clipFn(name string, box orb.Bound) genFn {
 	return genFn{name: name, mut: true, gen: func(g orb.Geometry) genVal { return gvGeom(clip.Geometry(box, g)) },
@@ -232,6 +251,31 @@ var genFns = []genFn{
 		typed: func(g orb.Geometry) (genVal, bool) { // a bound is measured as the ring it denotes
 			if b, ok := g.(orb.Bound); ok && !b.IsEmpty() {
 				return gvNum(planar.Length(b.ToRing()), 1), true
+			}
+			return nil, false
+		}},
+	// orb.Equal against the kind's own Equal, on a value and a shorter view of the same array (and on itself)
+	{name: "Equal.view", gen: func(g orb.Geometry) genVal {
+		v, ok := shorterView(g)
+		if !ok {
+			return gvNum(float64(b2i(orb.Equal(g, g))), 1)
+		}
+		return gvNum(float64(2*b2i(orb.Equal(g, v))+b2i(orb.Equal(v, g))), 1)
+	},
+		typed: func(g orb.Geometry) (genVal, bool) {
+			switch a := g.(type) {
+			case orb.MultiPoint:
+				if len(a) >= 2 {
+					return gvNum(float64(2*b2i(a.Equal(a[:len(a)-1]))+b2i(a[:len(a)-1].Equal(a))), 1), true
+				}
+			case orb.LineString:
+				if len(a) >= 2 {
+					return gvNum(float64(2*b2i(a.Equal(a[:len(a)-1]))+b2i(a[:len(a)-1].Equal(a))), 1), true
+				}
+			case orb.Ring:
+				if len(a) >= 2 {
+					return gvNum(float64(2*b2i(a.Equal(a[:len(a)-1]))+b2i(a[:len(a)-1].Equal(a))), 1), true
+				}
 			}
 			return nil, false
 		}},
